@@ -21,6 +21,7 @@ import (
 	"encoding/hex"
 	"fmt"
 	"reflect"
+	"sort"
 	"strings"
 
 	"github.com/miekg/dns"
@@ -35,6 +36,9 @@ type zooRef struct {
 	class string
 	rdata string // presentation RDATA
 	rec   zg.Rec // reference: the record parsed alone
+
+	keywords map[string]bool // RDATA items that are keywords (see keywordValues)
+	extra    bool            // one of keywordRefs(): only the spellings that concern keywords
 }
 
 func splitUnquoted(s string) (head, tail string, ok bool) {
@@ -92,6 +96,103 @@ func nameValues(rr dns.RR) map[string]bool {
 					out[f.Index(k).String()] = true
 				}
 			}
+		}
+	}
+	return out
+}
+
+// keywordValues: the mnemonics a record's RDATA spells as KEYWORDS -- the members of its type bit map (fields the library
+// tags dns:"nsec") and its "type covered": type mnemonics, read from the same table as the type of the record header.
+// "Keyword case does not change the result": these items, like the class and the type of the record header, may be
+// written in any case.  (AMBIG, not demanded: the case of algorithm / certificate-type mnemonics inside RDATA -- the
+// pinned CERT parser takes them in upper case only, DS / TA in any case; whether they are "keywords" of the zone
+// grammar the statement does not say.)
+func keywordValues(rr dns.RR) map[string]bool {
+	out := map[string]bool{}
+	v := reflect.ValueOf(rr)
+	for v.Kind() == reflect.Ptr || v.Kind() == reflect.Interface {
+		v = v.Elem()
+	}
+	if v.Kind() != reflect.Struct {
+		return out
+	}
+	for i := 0; i < v.NumField(); i++ {
+		sf := v.Type().Field(i)
+		if sf.Anonymous && sf.Name != "Hdr" && v.Field(i).CanInterface() {
+			if inner, ok := v.Field(i).Addr().Interface().(dns.RR); ok {
+				for n := range keywordValues(inner) {
+					out[n] = true
+				}
+			}
+			continue
+		}
+		f := v.Field(i)
+		switch {
+		case sf.Tag.Get("dns") == "nsec" && f.Kind() == reflect.Slice:
+			for k := 0; k < f.Len(); k++ {
+				out[dns.Type(uint16(f.Index(k).Uint())).String()] = true
+			}
+		case sf.Name == "TypeCovered" && f.Kind() == reflect.Uint16:
+			out[dns.Type(uint16(f.Uint())).String()] = true
+		}
+	}
+	return out
+}
+
+func capital(s string) string {
+	if s == "" {
+		return s
+	}
+	return strings.ToUpper(s[:1]) + strings.ToLower(s[1:])
+}
+
+// keywordSpelling: class, type and RDATA of a zoo record with every keyword rewritten by f (the other items untouched).
+func keywordSpelling(z zooRef, f func(string) string) (class, body string) {
+	items := strings.Split(z.rdata, " ")
+	for i, it := range items {
+		if z.keywords[it] {
+			items[i] = f(it)
+		}
+	}
+	body = f(z.typ)
+	if z.rdata != "" {
+		body += " " + strings.Join(items, " ")
+	}
+	return f(z.class), body
+}
+
+// keywordRefs: records that spell, as keywords of their RDATA, EVERY type mnemonic the library knows (the bit maps of NSEC,
+// NSEC3, CSYNC and NXT; the type covered of RRSIG / SIG for the mnemonics that hold a digit or a hyphen): the zoo's own
+// records name only a handful.  References as for the zoo: the record parsed
+// alone, written in upper case.
+func keywordRefs() []string {
+	var nums []int
+	for t := range dns.TypeToString {
+		if t != dns.TypeNone && t != dns.TypeReserved {
+			nums = append(nums, int(t))
+		}
+	}
+	nums = append(nums, 1234, 65280) // (no mnemonic: written TYPE1234, TYPE65280)
+	sort.Ints(nums)                  // (a bit map is packed in ascending order)
+	var all, low []string
+	for _, t := range nums {
+		all = append(all, dns.Type(uint16(t)).String())
+		if t < 128 {
+			low = append(low, dns.Type(uint16(t)).String())
+		}
+	}
+	bm := strings.Join(all, " ")
+	out := []string{
+		"OWNER 3600 IN NSEC next.example.org. " + bm,
+		"OWNER 3600 IN NSEC3 1 1 12 aabbccdd 2vptu5timamqttgl4luu9kg21e0aor3s " + bm,
+		"OWNER 3600 IN CSYNC 66 3 " + bm,
+		"OWNER 3600 IN NXT next.example.org. " + strings.Join(low, " "),
+	}
+	k := 0
+	for _, m := range all {
+		if strings.ContainsAny(m, "0123456789-") {
+			out = append(out, "OWNER 3600 IN "+[]string{"RRSIG", "SIG"}[k%2]+" "+m+" 13 2 3600 20300101000000 20200101000000 12345 example.org. oJMRESz5E4gYzS/q6XDrvU1qMPYIjCWzJaOau8XNEZeqCYKD5ar0IRd8KqXXFJkqmVfRvMGPmM1x8fGAa2XhSA==")
+			k++
 		}
 	}
 	return out
@@ -169,12 +270,12 @@ func follow(out string) {
 	defer w.Close()
 	var sum hx.Summary
 	var refs []zooRef
-	for _, t := range zoo.Texts {
+	for ti, t := range append(append([]string{}, zoo.Texts...), keywordRefs()...) {
 		f := strings.SplitN(t, " ", 5)
 		if len(f) < 4 || f[0] != "OWNER" {
 			hx.Die("zoo text %q", t)
 		}
-		z := zooRef{typ: f[3], class: f[2]}
+		z := zooRef{typ: f[3], class: f[2], extra: ti >= len(zoo.Texts)}
 		if len(f) == 5 {
 			z.rdata = f[4]
 		}
@@ -184,17 +285,36 @@ func follow(out string) {
 		}
 		var ok bool
 		if z.rec, ok = packOf(rr); !ok {
+			if z.extra {
+				hx.Die("keyword reference %q cannot be packed", t)
+			}
 			continue // (a text whose record cannot be packed is of no use as a reference)
 		}
+		z.keywords = keywordValues(rr)
 		refs = append(refs, z)
 	}
-	variants := []string{"plain", "comment", "blanks", "crlf", "paren", "paren-break", "paren-comment", "generic", "noeol"}
+	variants := []string{"plain", "comment", "blanks", "crlf", "paren", "paren-break", "paren-comment", "generic", "noeol", "lower", "capital"}
+	class := func(z zooRef, v string) string {
+		switch v {
+		case "lower":
+			return strings.ToLower(z.class)
+		case "capital":
+			return capital(z.class)
+		}
+		return z.class
+	}
 	body := func(z zooRef, v string) (string, bool) {
 		plain := z.typ
 		if z.rdata != "" {
 			plain += " " + z.rdata
 		}
 		switch v {
+		case "lower": // every keyword (class, type, type bit map members, type covered, algorithm mnemonics) in lower case
+			_, b := keywordSpelling(z, strings.ToLower)
+			return b, true
+		case "capital": // ... and Capitalised: a lower-case letter before a digit or a hyphen (Nsec3param, Nsap-ptr)
+			_, b := keywordSpelling(z, capital)
+			return b, true
 		case "comment":
 			return plain + " ; c ( \" $TTL 1", true
 		case "blanks":
@@ -225,6 +345,9 @@ func follow(out string) {
 		tri := []zooRef{refs[i], refs[(i+1)%len(refs)], refs[(i+2)%len(refs)]}
 		types[refs[i].typ] = true
 		for _, v := range variants {
+			if tri[0].extra && v != "plain" && v != "lower" && v != "capital" {
+				continue
+			}
 			eol := "\n"
 			if v == "crlf" {
 				eol = "\r\n"
@@ -239,7 +362,7 @@ func follow(out string) {
 			for k, z := range tri {
 				b, bok := body(z, v)
 				ok = ok && bok
-				text += heads[k] + z.class + " " + b
+				text += heads[k] + class(z, v) + " " + b
 				if !(v == "noeol" && k == 2) {
 					text += eol
 				}
@@ -249,7 +372,7 @@ func follow(out string) {
 			}
 			// dns.NewRR: the single record, with and without a final line end (also when the zone of this spelling is skipped)
 			if b, bok := body(tri[0], v); bok {
-				single := "ref.example.org. 300 " + tri[0].class + " " + b
+				single := "ref.example.org. 300 " + class(tri[0], v) + " " + b
 				cs := map[string]interface{}{"follow": "single|" + v + "|" + tri[0].typ, "text": single}
 				bad := map[string]string{}
 				for _, tail := range []string{"", eol} {
